@@ -1,6 +1,7 @@
 package rules
 
 import (
+	"go/token"
 	"strings"
 
 	"golang.org/x/tools/go/ssa"
@@ -215,6 +216,8 @@ func (u *upgA) noSplit() {
 	ok, why := true, "only constants, the accept key, header names and scrubbed bytes are appended"
 	okS, whyS := true, "constant parts form 'HTTP/1.1 101 ...CRLF' + header lines + final empty line; written once"
 	nApp, nWrites := 0, 0
+	okP, whyP := true, "responseHeader entries are copied only on paths that know the header name to differ from Sec-Websocket-Protocol"
+	nSkip := 0
 	u.full(func(p *core.Path) {
 		success := p.End == core.EndReturn && len(p.Results) == 2 && p.Results[1].IsNil()
 		var consts []string
@@ -244,6 +247,18 @@ func (u *upgA) noSplit() {
 				// key of `for k, vs := range responseHeader`: header name (table entry)
 				if nx, isNext := op.Args[0].Ref.(*ssa.Next); !isNext || nx.IsString {
 					ok, why = false, "unrecognised appended value "+op.String()
+				}
+				// the application's own Sec-Websocket-Protocol entry is never copied: the only subprotocol
+				// announced is the one selectSubprotocol chose
+				nSkip++
+				if !hasLit(p, ev.NLits, false, func(t *core.Term) bool {
+					if t.Kind != core.KEq {
+						return false
+					}
+					sv, isS := t.Args[1].StrVal()
+					return isS && sv == "Sec-Websocket-Protocol" && t.Args[0] == op
+				}) {
+					okP, whyP = false, "a responseHeader entry is copied into the 101 response at "+c.P.Pos(ev.Instr.Pos())+" on a path that does not know its name to differ from Sec-Websocket-Protocol: a subprotocol the selection did not choose (not offered by the client, or not supported) is announced"
 				}
 			case op.Kind == core.KSlice && op.Args[0].Kind == core.KAlloc:
 				b := storedAt(p, op.Args[0], p.X.T.Int(0), i)
@@ -288,6 +303,7 @@ func (u *upgA) noSplit() {
 	u.after(func() {
 		r.Check("C12.no-split", shortFn(u.upgrade), "appended-values-scrubbed", u.upgrade.Pos(), ok && nApp > 0, why)
 		r.Check("C12.status-line", shortFn(u.upgrade), "response-skeleton", u.upgrade.Pos(), okS && nWrites > 0, whyS)
+		r.Check("C12.subprotocol", shortFn(u.upgrade), "application-subprotocol-header-not-copied", u.upgrade.Pos(), okP && nSkip > 0, whyP)
 	})
 }
 
@@ -346,3 +362,45 @@ func (u *upgA) tokenListOWS(rule string) {
 	})
 	r.Check(rule, shortFn(u.tlcv), "optional-whitespace-and-exact-token", u.tlcv.Pos(), ok && nTrue > 0 && nSep > 0, why)
 }
+
+// quotedPairs: structural necessary condition for parsing quoted-string
+// parameter values (RFC 7230 quoted-pair): the byte that follows a backslash
+// recognised inside a quoted string is taken literally — it is never compared
+// with anything (in particular not with the closing quote).  Decided over
+// every pair of consecutive scanner iterations from an arbitrary loop state,
+// plus the precise first iteration of each loop: no path carries a branch
+// literal about s[i+1] after the literal s[i] == '\\'.
+func quotedPairs(c *Ctx, rule string) {
+	fn := c.fn("nextTokenOrQuoted")
+	ok, why := true, "the byte after a recognised backslash is consumed without being inspected, on every pair of consecutive iterations"
+	nBackslash := 0
+	c.explore(rule, fn, core.Opts{Unroll: 1, PairIter: true}, func(p *core.Path) {
+		for i, l := range p.Lits {
+			t := l.T
+			if !l.Pos || t.Kind != core.KEq || t.Args[0].Kind != core.KIndex {
+				continue
+			}
+			if v, isC := t.Args[1].Int64(); !isC || v != '\\' {
+				continue
+			}
+			nBackslash++
+			str, idx := t.Args[0].Args[0], t.Args[0].Args[1]
+			next := p.X.Bin(token.ADD, idx, p.X.T.Int(1), idx.Type)
+			for _, m := range p.Lits[i+1:] {
+				bad := false
+				m.T.Walk(func(y *core.Term) bool {
+					if y.Kind == core.KIndex && y.Args[0] == str && y.Args[1] == next {
+						bad = true
+					}
+					return true
+				})
+				if bad {
+					ok, why = false, "after the backslash recognised at "+litPos(c, l)+" the following byte is inspected at "+litPos(c, m)+" ("+m.T.String()+"): an escaped quote or backslash is not taken literally, so text inside a quoted parameter value can end the string early and be parsed as further extensions"
+				}
+			}
+		}
+	})
+	c.R.Check(rule, shortFn(fn), "byte-after-backslash-taken-literally", fn.Pos(), ok && nBackslash > 0, why)
+}
+
+func litPos(c *Ctx, l core.Lit) string { return c.P.LitPos(l) }
